@@ -445,6 +445,14 @@ static void libc_probe(int idx) {
 // ---- heap guard: every block the library gets from malloc / calloc / realloc is followed by a red zone; a released
 // block is poisoned and kept in quarantine until the call that released it returns. Overwritten red zones and
 // overwritten poison are counted per call (C20 judges them in faulted executions).
+#ifdef VARIANT_asan
+#include <sanitizer/asan_interface.h>
+#define QUAR_POISON(p, n) __asan_poison_memory_region((p), (n))
+#define QUAR_UNPOISON(p, n) __asan_unpoison_memory_region((p), (n))
+#else
+#define QUAR_POISON(p, n) ((void)0)
+#define QUAR_UNPOISON(p, n) ((void)0)
+#endif
 struct Quar { void *p; size_t size; int task; };
 static std::vector<Quar> g_quar;
 NOSAN static void rz_fill(void *p, size_t size) { memset((uint8_t *)p + size, 0xA5, HEAP_RZ); }
@@ -470,6 +478,7 @@ static uint32_t quarantine_flush(int tid) {
     for (size_t i = 0; i < g_quar.size();) {
         if (tid >= 0 && g_quar[i].task != tid) { i++; continue; }
         const uint8_t *b = (const uint8_t *)g_quar[i].p;
+        QUAR_UNPOISON(g_quar[i].p, g_quar[i].size + HEAP_RZ);
         bool ok = true;
         for (size_t k = 0; k < g_quar[i].size + HEAP_RZ && ok; k++) ok = b[k] == 0xDD;
         if (!ok) bad++;
@@ -498,6 +507,7 @@ static void alloc_body(void *p_) {
             if (rec && rec->guarded) {
                 if (!rz_ok(rec->p, rec->size)) { t->res[t->cur_op].heap_overrun++; sim_log(LOG_FAULT, 10, 0); }
                 memset(rec->p, 0xDD, rec->size + HEAP_RZ);
+                QUAR_POISON(rec->p, rec->size + HEAP_RZ); // ASan variant: any access by the library is reported at once
                 g_quar.push_back({rec->p, rec->size, t->id});
                 untrack(c->old);
                 g_freed.push_back(c->old);
